@@ -74,6 +74,9 @@ ViewStep(s, ln) ==
       wr   == Written(k, r.v, prev)
       c    == IF ood THEN "ok"
               ELSE IF ln.exc # r.exc THEN "OpOutcome"
+              \* a kept reference to an object whose assignment only serialised it is not a view of the header
+              ELSE IF ~vw.live THEN (IF now # prev \/ ~FrameOK(s, ln) \/ ln.nhh # ln.nhb THEN "Frame"
+                                     ELSE IF ln.vp # r.v THEN "ViewValue" ELSE IF ~RereadOK(ln) THEN "RereadKeepsHeader" ELSE "ok")
               ELSE IF r.exc # "" THEN (IF now # prev THEN "HeaderEqualsView" ELSE IF ln.vp # vw.v THEN "ViewValue" ELSE "ok")
               ELSE IF r.v # vw.v /\ now # wr THEN "HeaderEqualsView"
               ELSE IF r.v = vw.v /\ now # wr /\ now # prev THEN "HeaderEqualsView"
@@ -86,10 +89,10 @@ ViewStep(s, ln) ==
               ELSE IF ~ModelPostOK(ln, now) THEN "ModelPost"
               ELSE "ok"
       nv   == IF c = "ok" /\ ~ood THEN r.v ELSE ln.vp
-  IN [c |-> c, d |-> ~ood, s |-> [views |-> [s.views EXCEPT ![ln.vw] = [k |-> vw.k, h |-> vw.h, v |-> nv]], ht |-> ln.ht2, nh |-> ln.nh2]]
+  IN [c |-> c, d |-> ~ood, s |-> [views |-> [s.views EXCEPT ![ln.vw] = [k |-> vw.k, h |-> vw.h, v |-> nv, live |-> vw.live]], ht |-> ln.ht2, nh |-> ln.nh2]]
 
 \* ---------------------------------------------------------------- reading the property: a fresh live view
-NoView == [k |-> "", h |-> 0, v |-> <<>>]
+NoView == [k |-> "", h |-> 0, v |-> <<>>, live |-> FALSE]
 NoViews == [i \in 1..8 |-> NoView]
 PutView(views, i, e) == IF i \in 1..8 THEN [views EXCEPT ![i] = e] ELSE views
 GetStep(s, ln) ==
@@ -102,7 +105,7 @@ GetStep(s, ln) ==
            ELSE IF now = None /\ ln.k # "mtp" /\ ln.vp # EmptyView(ln.k) THEN "AbsentReadsEmpty"
            ELSE IF ValueOK(ln.k, ln.vp) /\ ~Empty(ln.k, ln.vp) /\ ln.k # "mtp" /\ ln.vt # Some(Ser(ln.k, ln.vp, <<>>)) THEN "ViewText"
            ELSE "ok"
-  IN [c |-> c, d |-> ValueOK(ln.k, ln.vp), s |-> [views |-> PutView(s.views, ln.vw, [k |-> ln.k, h |-> ln.h, v |-> ln.vp]), ht |-> ln.ht2, nh |-> ln.nh2]]
+  IN [c |-> c, d |-> ValueOK(ln.k, ln.vp), s |-> [views |-> PutView(s.views, ln.vw, [k |-> ln.k, h |-> ln.h, v |-> ln.vp, live |-> TRUE]), ht |-> ln.ht2, nh |-> ln.nh2]]
 
 \* ---------------------------------------------------------------- whole-property assignment, del, direct header edit
 AssignExp(ln) ==       \* [ok, e: expected optional header text, n: expected number of lines, v: assigned abstract value or <<"-">>]
@@ -138,10 +141,25 @@ AssignStep(s, ln) ==
            ELSE IF ~RereadOK(ln) THEN "RereadKeepsHeader"
            ELSE IF ~ModelPostOK(ln, now) THEN "ModelPost"
            ELSE "ok"
-      \* an assigned WWWAuthenticate object becomes a live view
-      vs == IF ln.op = "assign" /\ ln.k = "wa" /\ ln.a.tag = "value" /\ ln.vw > 0
-            THEN PutView(s.views, ln.vw, [k |-> "wa", h |-> ln.h, v |-> IF x.ok /\ c = "ok" THEN ln.a.w ELSE ln.vp])
-            ELSE s.views
+      \* www_authenticate = instance binds the instance to the header (documented: "Modifying the object will modify
+      \* the header value"): it is a live view.  Every other setter only serialises the assigned object (items of an
+      \* assigned list: documented as not live): a kept reference is a detached copy.
+      a   == ln.a
+      good == x.ok /\ c = "ok"
+      keeps == ln.op = "assign" /\ ln.vw > 0
+      vs1 == IF keeps /\ ln.k = "wa" /\ a.tag = "value"
+             THEN PutView(s.views, ln.vw, [k |-> "wa", h |-> ln.h, v |-> IF good THEN a.w ELSE ln.vp, live |-> TRUE])
+             ELSE IF keeps /\ ln.k = "wa" /\ a.tag = "list" /\ a.ws # <<>>
+             THEN PutView(s.views, ln.vw, [k |-> "wa", h |-> ln.h, v |-> IF good THEN a.ws[1] ELSE ln.vp, live |-> FALSE])
+             ELSE IF keeps /\ ln.k = "set" /\ a.tag = "list"
+             THEN PutView(s.views, ln.vw, [k |-> "set", h |-> ln.h, v |-> IF good THEN a.xs ELSE ln.vp, live |-> FALSE])
+             ELSE IF keeps /\ ln.k = "csp" /\ a.tag = "value"
+             THEN PutView(s.views, ln.vw, [k |-> "csp", h |-> ln.h, v |-> IF good THEN DUpdate(<<>>, a.ps) ELSE ln.vp, live |-> FALSE])
+             ELSE IF keeps /\ ln.k = "cr" /\ a.tag = "value"
+             THEN PutView(s.views, ln.vw, [k |-> "cr", h |-> ln.h, v |-> IF good THEN [un |-> a.y, st |-> a.m1, sp |-> a.m2, ln |-> a.m3] ELSE ln.vp, live |-> FALSE])
+             ELSE s.views
+      vs == IF keeps /\ ln.k = "wa" /\ a.tag = "list" /\ Len(a.ws) >= 2 /\ a.n > 0
+            THEN PutView(vs1, a.n, [k |-> "wa", h |-> ln.h, v |-> a.ws[2], live |-> FALSE]) ELSE vs1
   IN [c |-> c, d |-> x.ok, s |-> [views |-> vs, ht |-> ln.ht2, nh |-> ln.nh2]]
 
 \* ---------------------------------------------------------------- scalar typed properties
